@@ -1,0 +1,178 @@
+//! Verification hooks (cargo feature `verif`, off by default).
+//!
+//! Nothing in this module changes salsa's behaviour: it only forwards observations
+//! (failpoint visits and dependency-graph protocol operations) to a process-global
+//! sink installed by an external harness. Without an installed sink every hook is a
+//! single relaxed load.
+
+use std::hash::BuildHasher;
+use std::sync::OnceLock;
+
+use crate::key::DatabaseKeyIndex;
+
+/// Places *between* salsa's critical sections where a harness may inject a delay.
+#[derive(Copy, Clone, Debug, PartialEq, Eq, Hash)]
+pub enum Site {
+    /// `fetch_cold`: hot probe missed, about to try to claim.
+    FetchBeforeClaim,
+    /// `fetch_cold`: claim succeeded, before re-checking the memo.
+    FetchAfterClaim,
+    /// `maybe_changed_after_cold`: about to try to claim.
+    McaBeforeClaim,
+    /// `maybe_changed_after_cold`: claim succeeded, before loading the memo.
+    McaAfterClaim,
+    /// `insert_memo`: before publishing the memo.
+    BeforeInsertMemo,
+    /// `insert_memo`: after publishing the memo, before the claim is released.
+    AfterInsertMemo,
+    /// `ClaimGuard`: about to release / transfer the claim.
+    BeforeClaimRelease,
+    /// `block_on` returned (thread was woken up).
+    AfterBlockOn,
+    /// `cancel_others`: flag is set, before waiting for other handles.
+    CancelAfterFlag,
+    /// `cancel_others`: all other handles are gone.
+    CancelAfterWait,
+    /// interned: before taking the shard lock on the slow path.
+    InternBeforeShardLock,
+    /// table: about to allocate a slot in a page.
+    BeforeAllocate,
+    /// function `execute`: about to run the user function.
+    BeforeExecute,
+    /// function `execute`: user function returned, before the memo is completed.
+    AfterExecute,
+    /// fixpoint: between iterations.
+    BetweenIterations,
+}
+
+/// Result delivered to a blocked thread.
+#[derive(Copy, Clone, Debug, PartialEq, Eq, Hash)]
+pub enum Wait {
+    Completed,
+    Panicked,
+    Cancelled,
+}
+
+/// Operations of the claim / wait / transfer protocol.
+///
+/// Threads are identified by a token, see [`thread_token`].
+#[derive(Copy, Clone, Debug, PartialEq, Eq, Hash)]
+pub enum DgOp {
+    /// A query was claimed by the current thread. `reclaim` is true when a transferred
+    /// query is claimed again by the thread owning it (or its stale entry is taken over).
+    Claim {
+        key: DatabaseKeyIndex,
+        reclaim: bool,
+    },
+    /// Thread `from` starts waiting for `key`, which salsa believes is owned by `to`.
+    BlockOn {
+        from: u64,
+        key: DatabaseKeyIndex,
+        to: u64,
+    },
+    /// Thread `thread` has been handed `result` and is being notified.
+    Unblock { thread: u64, result: Wait },
+    /// Thread `thread` woke up and consumed `result`.
+    Resume { thread: u64, result: Wait },
+    /// All threads waiting on `key` are being released with `result`.
+    ReleaseKey {
+        key: DatabaseKeyIndex,
+        result: Wait,
+        panicking: bool,
+    },
+    /// All queries whose lock was transferred (transitively) to `owner` are released.
+    ReleaseTransferred {
+        owner: DatabaseKeyIndex,
+        result: Wait,
+    },
+    /// The claim on `key` is dropped by the current thread (any release mode,
+    /// emitted whether or not anybody is waiting).
+    ReleaseClaim {
+        key: DatabaseKeyIndex,
+        panicking: bool,
+    },
+    /// The lock of `query` (held by `current`) is handed to `new_owner`, whose lock is
+    /// held by `new_owner_thread`.
+    Transfer {
+        query: DatabaseKeyIndex,
+        current: u64,
+        new_owner: DatabaseKeyIndex,
+        new_owner_thread: u64,
+    },
+    /// A previous transfer of `query` is undone.
+    UndoTransfer { query: DatabaseKeyIndex },
+    /// Sizes of the dependency graph's maps, reported with every mutating operation.
+    Sizes {
+        edges: u32,
+        query_dependents: u32,
+        wait_results: u32,
+        transferred: u32,
+        transferred_dependents: u32,
+    },
+}
+
+/// Receiver of hook observations. Implementations must not call into salsa.
+pub trait Sink: Send + Sync + 'static {
+    fn failpoint(&self, site: Site);
+    fn trace(&self, op: DgOp);
+}
+
+static SINK: OnceLock<Box<dyn Sink>> = OnceLock::new();
+
+/// Installs the process-global sink. Returns `false` if one is already installed.
+pub fn set_sink(sink: Box<dyn Sink>) -> bool {
+    SINK.set(sink).is_ok()
+}
+
+#[inline]
+pub(crate) fn failpoint(site: Site) {
+    if let Some(sink) = SINK.get() {
+        sink.failpoint(site);
+    }
+}
+
+#[inline]
+pub(crate) fn trace(op: impl FnOnce() -> DgOp) {
+    if let Some(sink) = SINK.get() {
+        sink.trace(op());
+    }
+}
+
+/// A stable token for a thread id (salsa's notion of thread: `std` or `shuttle`).
+pub fn thread_token(id: crate::sync::thread::ThreadId) -> u64 {
+    rustc_hash::FxBuildHasher.hash_one(id)
+}
+
+/// Token of the calling thread, comparable with the tokens in [`DgOp`].
+pub fn current_thread_token() -> u64 {
+    thread_token(crate::sync::thread::current().id())
+}
+
+/// Walks salsa's coordination state at a *quiescent* point (no query running on any
+/// handle of `db`) and reports structural anomalies: claims still owned by a thread,
+/// a non-empty dependency graph, non-declining durability revisions, a set
+/// cancellation flag. The second element lists stale `Transferred` claim entries,
+/// which salsa leaves behind on purpose (they are reported, not judged).
+pub fn quiescent_check(db: &dyn crate::Database) -> (Vec<String>, Vec<DatabaseKeyIndex>) {
+    let zalsa = db.zalsa();
+    let mut problems = Vec::new();
+    let mut stale = Vec::new();
+    zalsa.runtime().verif_quiescent_check(&mut problems);
+    for ingredient in zalsa.ingredients() {
+        if let Some(function) = ingredient.as_function() {
+            let (owned, transferred) = function.sync_table().verif_entries();
+            for id in owned {
+                problems.push(format!(
+                    "claim on {:?} still owned by a thread at quiescence",
+                    DatabaseKeyIndex::new(ingredient.ingredient_index(), id)
+                ));
+            }
+            stale.extend(
+                transferred
+                    .into_iter()
+                    .map(|id| DatabaseKeyIndex::new(ingredient.ingredient_index(), id)),
+            );
+        }
+    }
+    (problems, stale)
+}
